@@ -33,7 +33,7 @@ func (c05) Info(t core.Tier) core.Info {
 	}
 }
 
-func (c05) NumCases(t core.Tier) int { return tierN(t, 2500, 150000) }
+func (c05) NumCases(t core.Tier) int { return tierN(t, 20000, 400000) }
 
 func c05Schema(r *rng.Rand) *spec.Node {
 	for try := 0; ; try++ {
